@@ -255,14 +255,17 @@ Dispatch(st0, p) ==
                 IF r[1] THEN StartPub(r[2], n, 0, 0, r[3], p.plen) ELSE Viol(st, r[4])
          ELSE IF Ver = 5 /\ RecvMax # 0 /\ Cardinality(st.pubIds) >= RecvMax THEN Viol(st, 147)
          ELSE IF Ver = 5 /\ Role = "server" /\ q > MaxQos THEN Viol(st, 155)
-         ELSE IF id \in st.ids
-           THEN IF Ver = 3 THEN Viol(st, 130)
-                \* v5: PUBACK 0x91 written at once through the sink; the request yields None
-                ELSE InCall(Write(st, Resp("PUBACK", id, 145)), n, None)
-         ELSE LET s1 == [st EXCEPT !.ids = @ \cup {id}, !.pubIds = @ \cup {id}] IN
-              IF Ver = 3 /\ Role = "server" /\ q > MaxQos THEN Viol(s1, 130)
-              ELSE LET r == Resolve(s1, p) IN
-                   IF r[1] THEN StartPub(r[2], n, q, id, r[3], p.plen) ELSE Viol(s1, r[4])
+         ELSE LET r == Resolve(st, p) IN
+              \* the alias is looked up / bound BEFORE the identifier is examined: the peer has bound it even if this
+              \* PUBLISH is refused, and a bad alias ends the connection whatever the identifier
+              IF ~r[1] THEN Viol(st, r[4])
+              ELSE IF id \in st.ids
+                THEN IF Ver = 3 THEN Viol(st, 130)
+                     \* v5: PUBACK 0x91 written at once through the sink; the request yields None
+                     ELSE InCall(Write(r[2], Resp("PUBACK", id, 145)), n, None)
+              ELSE LET s1 == [r[2] EXCEPT !.ids = @ \cup {id}, !.pubIds = @ \cup {id}] IN
+                   IF Ver = 3 /\ Role = "server" /\ q > MaxQos THEN Viol(s1, 130)
+                   ELSE StartPub(s1, n, q, id, r[3], p.plen)
     [] p.kind = "pubrel" ->
          \* (the clients accept PUBREL for any identifier that is in flight, not only for an acknowledged QoS 2 publish)
          IF p.id \in st.q2rec \/ (Role = "client" /\ p.id \in st.ids) THEN CtlArrive(st, n, "pubrel", p.id)
